@@ -83,6 +83,18 @@ static void one(const uint8_t *ad, size_t adlen, const uint8_t *m, size_t mlen, 
         }
         hx_free(c); hx_free(e0);
     }
+    /* second packet on the same incremental object: the entry point must compute the function under the stored nonce + 1 (128-bit big-endian, carry through 0..5 trailing 0xFF bytes) */
+    {
+        uint8_t n2[16], n3[16], *c = hx_buf(clen), *e0 = hx_buf(clen), *scratch = hx_buf(clen); api_inc_state st;
+        int k = (int)((adlen * 3 + mlen) % 6); memcpy(n2, nonce, 16); for (int i = 0; i < k; i++) n2[15 - i] = 0xff;
+        memcpy(n3, n2, 16); for (int i = 15; i >= 0; i--) if (++n3[i]) break;
+        ref_aead_encrypt(alg, key, n3, ad, adlen, m, mlen, e0);
+        api_inc_init[alg](&st, n2, key); api_inc_start[alg](&st, adlen ? ad : 0, adlen); api_inc_enc[alg](&st, m, scratch, mlen); api_inc_encfin[alg](&st, scratch + mlen);
+        api_inc_start[alg](&st, adlen ? ad : 0, adlen); api_inc_enc[alg](&st, m, c, mlen); api_inc_encfin[alg](&st, c + mlen); api_inc_free[alg](&st);
+        hx_stat("evaluations", 1);
+        if (memcmp(c, e0, clen) || !hx_buf_ok(c, clen)) hx_fail("encrypt:incremental-second-packet", "alg=%s second packet of a session differs from the specification under nonce+1 (%d trailing FF bytes) adlen=%zu mlen=%zu pat=%s", api_alg_name[alg], k, adlen, mlen, pat);
+        hx_free(c); hx_free(e0); hx_free(scratch);
+    }
     if (adlen + mlen > 0) hx_stat("nontrivial_shapes", 1);
     hx_free(exp);
 }
